@@ -7,8 +7,9 @@ for cf in sorted(glob.glob(f"{root}/_runs/*.confirm.json")):
     c = json.load(open(cf))
     name = c["name"]
     rnd2 = name.startswith("R2_")
-    prop, var = name[3:].split("-") if rnd2 else name.split("-")
-    base = "/tmp/seed2_out" if rnd2 else "/tmp/seed_out"
+    rnd3 = name.startswith("R3_")
+    prop, var = name[3:].split("-") if (rnd2 or rnd3) else name.split("-")
+    base = "/tmp/seed3_out" if rnd3 else "/tmp/seed2_out" if rnd2 else "/tmp/seed_out"
     src = f"{base}/{prop}/{var}"
     ok = c.get("applies") and c.get("demo_without") == 0 and c.get("demo_with") == 1 and c.get("tests_passed", 0) >= 99 and c.get("tests_exit") == 0
     runf = f"{root}/_runs/{name}.json"
@@ -24,13 +25,19 @@ for cf in sorted(glob.glob(f"{root}/_runs/*.confirm.json")):
         m = re.search(r"(?is)(what is needed to manifest|needs?[^\n]*manifest[^\n]*|## needs)[^\n]*\n(.{0,900})", notes)
         if m:
             needs = " ".join(m.group(2).split())[:700]
-        json.dump({"breaks_property": prop, "variant": var, "written_by": "independent sub-agent given only the property text and a scratch worktree" + (" (second round: told which two ideas had already been used, nothing else)" if rnd2 else ""),
+        json.dump({"breaks_property": prop, "variant": var, "written_by": "independent sub-agent given only the property text and a scratch worktree" + (" (second round: told which two ideas had already been used, nothing else)" if rnd2 else " (third round: told which ideas had been used and asked for conjunctions of unusual circumstances / numerical regimes / rarely used parameters)" if rnd3 else ""),
                    "needs_to_manifest": needs or notes[:700],
                    "confirmed": {"on_head": c["head"], "applies": True, "pinned_tests_passed": c["tests_passed"], "tests_summary": c["tests_summary"],
                                  "demo_exit_without_change": c["demo_without"], "demo_exit_with_change": c["demo_with"],
                                  "how": "tools/confirm_seed.py on a scratch worktree of /repo HEAD (outside /repo and /verif), removed afterwards"},
                    "checks_run": {k: {"exit": v["exit"], "signatures": v.get("signatures", [])[:4]} for k, v in run.get("checks", {}).items()},
                    "detected_by": sorted(k for k, v in caught.items() if v == 1)}, open(f"{d}/meta.json", "w"), indent=1)
+    elif ok and os.path.exists(f"{root}/{name}/meta.json"):
+        # sources gone (scratch area cleaned): keep the stored copy, refresh the detection record
+        m = json.load(open(f"{root}/{name}/meta.json"))
+        m["checks_run"] = {k: {"exit": v["exit"], "signatures": v.get("signatures", [])[:4]} for k, v in run.get("checks", {}).items()}
+        m["detected_by"] = sorted(k for k, v in caught.items() if v == 1)
+        json.dump(m, open(f"{root}/{name}/meta.json", "w"), indent=1)
     rows.append((name, "confirmed" if ok else f"NOT confirmed ({ {k: c.get(k) for k in ('applies','demo_without','demo_with','tests_passed')} })", caught))
 with open(f"{root}/RESULTS.md", "w") as fh:
     fh.write("# Seeded changes: confirmation and detection by the registered quick checks\n\n| seed | status | checks run (exit code: 1 = VIOLATION reported, 0 = missed, 2 = machinery failure) |\n|---|---|---|\n")
